@@ -35,6 +35,10 @@ pub struct Profile {
     pub text_cols: bool,
     /// text values of several kilobytes (log spills over blocks, rows need overflow pages)
     pub big_text: bool,
+    /// text values end in blanks, tabs, quotes, backslashes, LIKE wildcards or non-ASCII characters
+    /// (E5b: what the server renders must arrive byte for byte)
+    #[serde(default)]
+    pub exotic_text: bool,
     /// every text value is padded to exactly this many bytes (uniform cell sizes, several pages of data)
     pub pad_text: usize,
     /// a burst of this many autocommit reads somewhere in the history: each logs BEGIN/COMMIT/END,
@@ -79,6 +83,7 @@ impl Profile {
             updates: true,
             text_cols: true,
             big_text: false,
+            exotic_text: false,
             pad_text: 0,
             read_burst: 0,
             ddl_rich: false,
@@ -312,6 +317,10 @@ impl Gen {
                         Val::T(format!("s{:05}{}", n, "x".repeat(len)))
                     } else if self.p.pad_text > 0 {
                         Val::T(format!("s{:05}{}", self.fresh_val(), "x".repeat(self.p.pad_text)))
+                    } else if self.p.exotic_text && self.rng.chance(60) {
+                        const TAILS: &[&str] = &[" ", "  ", " x ", "\t", "\u{e9}", "\u{6f22}\u{5b57}", "\u{1F600}", "'", "\"", "\\", "%", "_", "\u{df} ", "\u{a0}", "\n", " NULL", "--", ";", "\u{0301}"];
+                        let t = *self.rng.pick(TAILS);
+                        Val::T(format!("s{:05}{}", self.fresh_val(), t))
                     } else {
                         Val::T(format!("s{:05}", self.fresh_val()))
                     }
